@@ -52,7 +52,7 @@ OUTCOMES = ['C', 'D', 'S', 'M', 'N', 'I', 'E', 'T']
 
 def gen_knobs(rng, line_search):
     initialInc = rng.choice([1.0, 0.5, 0.3, 0.1, rng.uniform(0.02, 1.0), rng.uniform(0.2, 1.0)])
-    lo = 1e-4
+    lo = rng.choice([1e-4] * 11 + [1e-7])
     minInc = rng.choice([1e-3, initialInc, initialInc * rng.uniform(0.01, 1.0),
                          math.exp(rng.uniform(math.log(lo), math.log(initialInc))),
                          initialInc * 0.31, initialInc * 0.09])
@@ -335,6 +335,13 @@ class _Injected(RuntimeError):
     pass
 
 
+class _Truncated(BaseException):
+    """the simulator stops a legitimately long run (tiny minimum increment) after CALL_CAP callable calls"""
+
+
+CALL_CAP = 25000
+
+
 TOOL_ID = 4
 
 
@@ -369,6 +376,7 @@ class Monitor(object):
         self.pure = None          # (fext, fint) pure callables for worlds P/R
         self.violation = None
         self.submin = 0
+        self.truncated = False
 
     def begin_run(self):
         """a new analysis starts on the same Analysis object: forget the reports of the previous one"""
@@ -404,6 +412,9 @@ class Monitor(object):
     def call(self, kind, inc=None, c=None, rho=None):
         self.event += 1
         self.calls += 1
+        if self.calls > CALL_CAP and self.violation is None:
+            self.truncated = True
+            raise _Truncated()
         bump(self.counts, kind)
         sha = sha_bytes(c.tobytes()) if c is not None else None
         self.ledger.append((self.event, kind, inc, sha, rho))
@@ -900,6 +911,9 @@ def execute(scen):
             raise
         except _Budget as e:
             raise
+        except _Truncated:
+            raised = None
+            bump(res['probes'], 'truncated_long_run(no verdict on termination)')
         except Exception as e:
             raised = e
             bump(res['exceptions'], type(e).__name__)
@@ -914,11 +928,15 @@ def execute(scen):
             nr.msg, nr.warn = old_msg, old_warn
         if mon.violation is not None:
             raise mon.violation
-        exit_class = mon.final_checks(raised)
+        if mon.truncated:
+            mon.check_reports()          # what was reported so far is still judged (I1-I3); termination is not
+            exit_class = 'truncated'
+        else:
+            exit_class = mon.final_checks(raised)
         if isinstance(raised, _Injected):
             bump(res['probes'], 'injected_exception_propagated')
         # I6 linear problems
-        if world == 'P' and scen['struct']['kind'] == 'linear' and raised is None:
+        if world == 'P' and scen['struct']['kind'] == 'linear' and raised is None and not mon.truncated:
             Kd, f, f0 = lin
             incs = [float(x) for x in an.increments]
             cstar = np.linalg.solve(Kd, f + f0)
